@@ -207,6 +207,18 @@ type c17fCase struct {
 	Spec      memsys.AssemblySpec `json:"spec"`
 	Addresses []uint64            `json:"addresses"`
 	PID       uint32              `json:"pid"`
+	// Pick selects filter addresses relative to the dirty set found at flush
+	// time (index modulo its size, byte offset modulo the line), so that the
+	// strict-subset class is reached by construction; PIDOf (k>0) takes the
+	// PID filter from the k-th dirty line. Both resolve deterministically from
+	// the case, so replay is unaffected.
+	Pick  []c17Pick `json:"pick,omitempty"`
+	PIDOf int       `json:"pid_of,omitempty"`
+}
+
+type c17Pick struct {
+	Idx int    `json:"idx"`
+	Off uint64 `json:"off"`
 }
 
 type dirtyLine struct {
@@ -222,6 +234,7 @@ func TestC17Filtered(t *testing.T) {
 	run := func(f kit.Failer, c c17fCase) {
 		var fail *memsys.Failure
 		nD, nMatch := 0, 0
+		effAddrs, effPID := 0, c.PID
 		ok, sig, msg := kit.Guard(func() {
 			engine, a := newRun(c.Spec)
 			a.Kick()
@@ -255,21 +268,31 @@ func TestC17Filtered(t *testing.T) {
 			for _, d := range dirty {
 				before[d.Tag], _ = a.Storage.Read(d.Tag, line)
 			}
+			addrs, pid := append([]uint64(nil), c.Addresses...), c.PID
+			if len(dirty) > 0 {
+				for _, pk := range c.Pick {
+					addrs = append(addrs, dirty[pk.Idx%len(dirty)].Tag+pk.Off%line)
+				}
+				if c.PIDOf > 0 {
+					pid = dirty[(c.PIDOf-1)%len(dirty)].PID
+				}
+			}
+			effAddrs, effPID = len(addrs), pid
 			match := func(d dirtyLine) bool {
-				if c.PID != 0 && d.PID != c.PID {
+				if pid != 0 && d.PID != pid {
 					return false
 				}
-				if len(c.Addresses) == 0 {
+				if len(addrs) == 0 {
 					return true
 				}
-				for _, ad := range c.Addresses {
+				for _, ad := range addrs {
 					if ad/line*line == d.Tag {
 						return true
 					}
 				}
 				return false
 			}
-			a.Ctl.State.Steps = append(a.Ctl.State.Steps, memsys.CtlStep{Target: controlTarget(a, 0), Cmd: int(memcontrolprotocol.CmdFlush), Addresses: c.Addresses, PID: c.PID})
+			a.Ctl.State.Steps = append(a.Ctl.State.Steps, memsys.CtlStep{Target: controlTarget(a, 0), Cmd: int(memcontrolprotocol.CmdFlush), Addresses: addrs, PID: pid})
 			a.Ctl.TickLater()
 			_ = engine.Run()
 			if fail = ctlFailure(a); fail != nil {
@@ -288,11 +311,11 @@ func TestC17Filtered(t *testing.T) {
 		}
 		cl := "filter:none"
 		switch {
-		case len(c.Addresses) > 0 && c.PID != 0:
+		case effAddrs > 0 && effPID != 0:
 			cl = "filter:both"
-		case len(c.Addresses) > 0:
+		case effAddrs > 0:
 			cl = "filter:addresses"
-		case c.PID != 0:
+		case effPID != 0:
 			cl = "filter:pid"
 		}
 		s.Note(c, nD >= 2 && nMatch > 0 && nMatch < nD, cl, fmt.Sprintf("dirty-lines:%d", min(nD, 4)))
@@ -319,11 +342,19 @@ func TestC17Filtered(t *testing.T) {
 				c.Addresses = append(c.Addresses, uint64(rapid.IntRange(0, 63).Draw(rt, "fl"))*line+uint64(rapid.IntRange(0, int(line)-1).Draw(rt, "fo")))
 			}
 		}
-		switch rapid.IntRange(0, 2).Draw(rt, "pidf") {
+		switch rapid.IntRange(0, 3).Draw(rt, "pidf") {
 		case 1:
 			c.PID = 1
 		case 2:
 			c.PID = 2
+		case 3:
+			c.PIDOf = rapid.IntRange(1, 8).Draw(rt, "pidOf")
+		}
+		if rapid.IntRange(0, 2).Draw(rt, "pickDirty") > 0 {
+			n := rapid.IntRange(1, 3).Draw(rt, "nPick")
+			for i := 0; i < n; i++ {
+				c.Pick = append(c.Pick, c17Pick{Idx: rapid.IntRange(0, 15).Draw(rt, "pi"), Off: uint64(rapid.IntRange(0, int(line)-1).Draw(rt, "po"))})
+			}
 		}
 		run(rt, c)
 	})
